@@ -10,9 +10,12 @@
      order): after a throw at any point the vector keeps its size with live elements and nothing is alive beyond it;
      [Throw.fill_cur_refuted] records that the historic order leaked the tail;
    - [C09_uninitialized_fill_cleanup]: std::uninitialized_fill_n destroys what it built;
-   - known finding [C09_insert_count_middle_refuted]: insert(pos, n, v) with pos < size() and a copy that throws while the gap
-     is being filled leaves moved-from elements visible and live elements beyond size() (witness: size 5, pos 2, n 3, first
-     copy throws) - recorded in known_findings.json, not repaired (needs a new roll-back helper).
+   - [C09_insert_count_middle_refuted]: the code BEFORE the repair of finding F11 ([Throw.insert_cnt_th]: shift_right, then
+     fill_after_shift, no handler): insert(pos, n, v) with pos < size() and a copy that throws while the gap is being filled
+     left moved-from elements visible and live elements beyond size() (witness: size 5, pos 2, n 3, first copy throws);
+   - [C09_insert_count_anywhere_strong]: the REPAIRED insert(pos, n, v) ([Throw.insert_cnt_fix]: shift_right, fill_after_shift
+     assigning before it constructs, catch: unshift_right) for every position pos <= size(): whichever copy throws, every
+     slot is exactly as before (strong guarantee); on completion prefix, n copies of v, the old tail n slots higher.
    - [C09_emplace_*] (EmplaceGrow.v: the temporary of emplace and the argument are slots of the memory, the new block a second
      index range; the allocation is a throwing event): single-element insert / emplace within capacity and the growth path of
      emplace / emplace_back (push_back(T&&), insert(pos, T&&)): a throw leaves every slot as before - the argument included,
@@ -77,10 +80,22 @@ Theorem C09_uninitialized_fill_cleanup :
         (forall j, first <= j < cur + n -> m' j = Raw) /\ (forall j, ~ (first <= j < cur + n) -> m' j = m j)).
 Proof. exact uninit_fill_loop_spec. Qed.
 
-(* the full statement (basic guarantee for insert of several elements in the middle) is FALSE of the faithful model: *)
+(* the full statement (basic guarantee for insert of several elements in the middle) is FALSE of the faithful model of the
+   code before the repair of F11 (insert_cnt_th): *)
 Theorem C09_insert_count_middle_refuted :
   exists m', Inv m5 5 9 /\ insert_cnt_th m5 (Some 0) 5 2 3 7%Z = Threw m' /\ m' 2 = Moved /\ m' 5 = Live 2%Z /\ ~ Inv m' 5 9.
 Proof. exact insert_count_middle_refuted. Qed.
+
+(* the repaired code (insert_cnt_fix: the fill is undone by unshift_right): strong guarantee at every position *)
+Theorem C09_insert_count_anywhere_strong :
+  forall m th size cap pos count v, Inv m size cap -> pos <= size -> size + count <= cap ->
+    match insert_cnt_fix m th size pos count v with
+    | Done m' _ => (forall j, j < pos -> m' j = m j) /\ (forall j, pos <= j < pos + count -> m' j = Live v) /\
+                   (forall j, pos + count <= j < size + count -> m' j = m (j - count)) /\ Inv m' (size + count) cap
+    | Threw m' => forall j, m' j = m j
+    | Err _ => False
+    end.
+Proof. exact insert_cnt_fix_strong. Qed.
 
 (* ---- sets: after copy assignment or insert(first, last) exits by an exception, a FlatSet still is a set ---- *)
 Theorem C09_flatset_restore_invariants_is_the_regenerated_one :
